@@ -248,7 +248,7 @@ Definition de_test (ts : list str) : option (test * list str) :=
       else if tok_is k "Perm" then
         match r with
         | kd :: b :: r' =>
-            let bits := N.land (dec_value b) 4095 in
+            let bits := N.land (dec_value b) 4294967295 in
             if tok_is kd "AtLeast" then Some (TPerm PAtLeast bits, r')
             else if tok_is kd "Any" then Some (TPerm PAny bits, r')
             else if tok_is kd "Equal" then Some (TPerm PEqual bits, r') else None
